@@ -342,6 +342,15 @@ def _tagged(case, rec):
     # ---- clamps
     clamp_log = {}
     dcl = None
+    def ext_ok():
+        # bookkeeping the next view / the next integrate relies on: one index per row of samples, indices within the table
+        for kx, data in net.externals.items():
+            ix = np.asarray(net.external_inds[kx])
+            nrows = len(net.edges) if kx.startswith(("IonotropicSynapse", "TestSynapse")) else len(net.nodes)
+            rec.check("externals_consistent", np.asarray(data).shape[0] == len(ix) and (len(ix) == 0 or (ix.min() >= 0 and ix.max() < nrows)),
+                      what="externals and external_inds disagree after an accepted stimulate/clamp", key=kx, n_samples=int(np.asarray(data).shape[0]),
+                      inds=ix.tolist()[:12], table_rows=int(nrows), clamped_so_far=sorted({k[0] for k in clamp_log}))
+
     for c in case["clamps"]:
         st = c["state"]
         dom = sorted(tags.get(st, {}))
@@ -357,7 +366,11 @@ def _tagged(case, rec):
                 continue
             lo, hi = (-80, 20) if st == "v" else (0.05, 0.95)
             arr = rr.uniform(lo, hi, (len(part), T))
-            view = net.select(edges=np.asarray(part)) if is_edge else net.select(nodes=np.asarray(part))
+            ext_ok()
+            try:
+                view = rec.call("clamp_hold", (lambda: net.select(edges=np.asarray(part)) if is_edge else net.select(nodes=np.asarray(part))), where="select before clamp")
+            except Refused:
+                continue
             try:
                 if case["data_clamp"] and dcl is None and not any(k[0] != st for k in clamp_log):
                     dcl = rec.call("clamp_hold", view.data_clamp, st, jnp.asarray(arr), None, where=f"data_clamp({st})")
@@ -367,6 +380,7 @@ def _tagged(case, rec):
                 continue
             for j, i in enumerate(part):
                 clamp_log[(st, i)] = arr[j]
+    ext_ok()
     tag = dict(backend=case["backend"], n_syn_types=len(set(s[2] for s in case["syn"])), n_edges=ne, edge_types=[int(s[2]) for s in case["syn"]],
                recs=[list(w) for w in want][:14], clamps=sorted({k[0] for k in clamp_log}))
     try:
